@@ -54,6 +54,9 @@ func (c *Ctx) mapModelOf(t types.Type) (*mapModel, bool) {
 // mapKey: the key term of a Go value used as a map key.
 func (c *Ctx) mapKey(m *mapModel, k Val) string {
 	if isString(m.keyT) {
+		if k.T == textType {
+			return k.S // contracts may give the key directly as a text
+		}
 		c.sortOf(textType)
 		c.declStrEq()
 		c.decl("fn:txt", "(declare-fun txt (Str) Txt)")
